@@ -86,9 +86,10 @@ void ezc3d::DataNS::AnalogsNS::SubFrame::channel(const ezc3d::DataNS::AnalogsNS:
     if (idx == SIZE_MAX)
         _channels.push_back(channel);
     else{
-        if (idx >= nbChannels())
+        ezc3d::DataNS::AnalogsNS::Channel copy(channel); // made before resizing: the element sent may be one of this container
+        if (idx >= _channels.size())
             _channels.resize(idx+1);
-        _channels[idx] = channel;
+        _channels[idx] = copy;
     }
 }
 
